@@ -4,10 +4,14 @@
 (* the healer's wound loop and its heal goroutine run concurrently. Prototype for C06.        *)
 EXTENDS Integers, Sequences, FiniteSets, TLC
 CONSTANTS Paths, Parent, Expect, DirOrder, SymOrder, FileOrder,
-          Repaired    \* TRUE: the validator treats ENOTDIR (a non-directory where a parent directory is expected) like a missing entry
-\* entry on disk: <<kind, good>>; kind in none/dir/file/sym; good = content (file) or destination (sym) as signed
+          Repaired,   \* TRUE: the validator treats ENOTDIR (a non-directory where a parent directory is expected) like a missing entry
+          Repaired2   \* TRUE: the validator does not look below a directory entry it found to be a non-directory
+\* entry on disk: <<kind, good>>; kind in none/dir/file/sym/symdir; good = content (file) or destination (sym) as signed.
+\* "symdir" = a symlink that RESOLVES to a directory elsewhere holding a healthy copy of everything the build has below
+\* this path (a folder moved to another disk and linked back): lookups below it succeed and look healthy, changes made
+\* below it land in that other directory - nothing of it is part of the build directory.
 None == <<"none", TRUE>>
-Kinds == {None, <<"dir", TRUE>>, <<"file", TRUE>>, <<"file", FALSE>>, <<"sym", TRUE>>, <<"sym", FALSE>>}
+Kinds == {None, <<"dir", TRUE>>, <<"file", TRUE>>, <<"file", FALSE>>, <<"sym", TRUE>>, <<"sym", FALSE>>, <<"symdir", TRUE>>}
 Root == "/"
 RECURSIVE Ancestors(_)
 Ancestors(p) == IF Parent[p] = Root THEN {} ELSE {Parent[p]} \cup Ancestors(Parent[p])
@@ -17,81 +21,95 @@ VARIABLES fs, vpc, vi,          \* disk; validator phase ("dirs","syms","files",
           wounds, closed,       \* wound channel (FIFO) and whether the validator closed it
           hq, hqClosed, hdone,  \* heal queue (file paths), closed flag, heal goroutine finished
           hpc, queued,          \* healer loop: "loop" | "join" | "done"; files already queued
-          ret                   \* "none" | "nil" | "err"
-vars == <<fs,vpc,vi,wounds,closed,hq,hqClosed,hdone,hpc,queued,ret>>
-Init == /\ fs \in {g \in [Paths -> Kinds] : WellFormed(g)}
+          ret,                  \* "none" | "nil" | "err"
+          broken                \* validator: directory entries it found to be something else (file, symlink)
+vars == <<fs,vpc,vi,wounds,closed,hq,hqClosed,hdone,hpc,queued,ret,broken>>
+Init == /\ fs \in {g \in [Paths -> Kinds] : WellFormed(g) /\ \A p \in Paths : g[p][1] = "symdir" => Expect[p] = "dir"}
+        /\ broken = {}
         /\ vpc = "dirs" /\ vi = 1 /\ wounds = <<>> /\ closed = FALSE
         /\ hq = <<>> /\ hqClosed = FALSE /\ hdone = FALSE /\ hpc = "loop" /\ queued = {} /\ ret = "none"
 (* ---- POSIX-ish primitives ---- *)
 \* lstat / open / readlink resolve the parent chain first
-Resolve(g, p) == IF \E a \in Ancestors(p) : g[a][1] \in {"file", "sym"} THEN "enotdir"   \* (a symlinked ancestor: not followed here)
+\* (a dangling / non-directory symlink as an ancestor is ENOTDIR here; one that resolves to a directory is followed)
+Resolve(g, p) == IF \E a \in Ancestors(p) : g[a][1] \in {"file", "sym"} THEN "enotdir"
+                 ELSE IF \E a \in Ancestors(p) : g[a][1] = "symdir" THEN "through"        \* healthy copy seen through the link
                  ELSE IF \E a \in Ancestors(p) : g[a][1] = "none" THEN "enoent"
                  ELSE IF g[p][1] = "none" THEN "enoent" ELSE "ok"
+Through(g, p) == Resolve(g, p) = "through"
+UnderBroken(p) == Repaired2 /\ Ancestors(p) \cap broken # {}
 Wipe(g, p) == [q \in Paths |-> IF q = p \/ q \in Children(p) THEN None ELSE g[q]]
 \* os.MkdirAll(p): fails iff p or an ancestor exists and is not a directory
-MkdirAllOK(g, p) == \A a \in Ancestors(p) \cup {p} : g[a][1] \in {"none", "dir"}
-MkdirAll(g, p) == [q \in Paths |-> IF q \in Ancestors(p) \cup {p} THEN <<"dir", TRUE>> ELSE g[q]]
+\* (through a link that resolves to a directory MkdirAll succeeds and creates nothing in the build directory)
+MkdirAllOK(g, p) == \A a \in Ancestors(p) \cup {p} : g[a][1] \in {"none", "dir", "symdir"}
+MkdirAll(g, p) == IF \E a \in Ancestors(p) \cup {p} : g[a][1] = "symdir" THEN g
+                  ELSE [q \in Paths |-> IF q \in Ancestors(p) \cup {p} THEN <<"dir", TRUE>> ELSE g[q]]
 (* ---- validator pass (main goroutine + worker, sequential) ---- *)
 Send(w) == wounds' = Append(wounds, w)
 Fail == ret' = "err" /\ vpc' = "ret"
 VDir == /\ vpc = "dirs" /\ vi <= Len(DirOrder) /\ ret = "none"
         /\ LET p == DirOrder[vi] r == Resolve(fs, p) IN
-           IF r = "enotdir" /\ ~Repaired THEN Fail /\ UNCHANGED <<vi, wounds>>                                  \* `return err`
-           ELSE /\ (IF r \in {"enoent", "enotdir"} \/ fs[p][1] # "dir" THEN Send(<<"DIR", p>>) ELSE UNCHANGED wounds)
+           IF UnderBroken(p) THEN Send(<<"DIR", p>>) /\ vi' = vi + 1 /\ UNCHANGED <<vpc, ret, broken>>
+           ELSE IF r = "enotdir" /\ ~Repaired THEN Fail /\ UNCHANGED <<vi, wounds, broken>>                     \* `return err`
+           ELSE /\ (IF r \in {"enoent", "enotdir"} \/ (r = "ok" /\ fs[p][1] # "dir") THEN Send(<<"DIR", p>>) ELSE UNCHANGED wounds)
+                /\ broken' = IF r = "ok" /\ fs[p][1] \notin {"dir", "none"} THEN broken \cup {p} ELSE broken
                 /\ vi' = vi + 1 /\ UNCHANGED <<vpc, ret>>
         /\ UNCHANGED <<fs,closed,hq,hqClosed,hdone,hpc,queued>>
 VDirsDone == /\ vpc = "dirs" /\ vi > Len(DirOrder) /\ vpc' = "syms" /\ vi' = 1
-             /\ UNCHANGED <<fs,wounds,closed,hq,hqClosed,hdone,hpc,queued,ret>>
+             /\ UNCHANGED <<fs,wounds,closed,hq,hqClosed,hdone,hpc,queued,ret,broken>>
 VSym == /\ vpc = "syms" /\ vi <= Len(SymOrder) /\ ret = "none"
         /\ LET p == SymOrder[vi] r == Resolve(fs, p) IN
-           IF r = "enotdir" /\ ~Repaired THEN Fail /\ UNCHANGED <<vi, wounds>>                                  \* Readlink: not IsNotExist
-           ELSE /\ (IF r \in {"enoent", "enotdir"} \/ fs[p] # <<"sym", TRUE>> THEN Send(<<"SYM", p>>) ELSE UNCHANGED wounds)
+           IF UnderBroken(p) THEN Send(<<"SYM", p>>) /\ vi' = vi + 1 /\ UNCHANGED <<vpc, ret>>
+           ELSE IF r = "enotdir" /\ ~Repaired THEN Fail /\ UNCHANGED <<vi, wounds>>                             \* Readlink: not IsNotExist
+           ELSE /\ (IF r \in {"enoent", "enotdir"} \/ (r = "ok" /\ fs[p] # <<"sym", TRUE>>) THEN Send(<<"SYM", p>>) ELSE UNCHANGED wounds)
                 /\ vi' = vi + 1 /\ UNCHANGED <<vpc, ret>>
-        /\ UNCHANGED <<fs,closed,hq,hqClosed,hdone,hpc,queued>>
+        /\ UNCHANGED <<fs,closed,hq,hqClosed,hdone,hpc,queued,broken>>
 VSymsDone == /\ vpc = "syms" /\ vi > Len(SymOrder) /\ vpc' = "files" /\ vi' = 1
-             /\ UNCHANGED <<fs,wounds,closed,hq,hqClosed,hdone,hpc,queued,ret>>
+             /\ UNCHANGED <<fs,wounds,closed,hq,hqClosed,hdone,hpc,queued,ret,broken>>
 \* any stat/open problem is a whole-file wound; bad content is a wound; good content a healthy marker (not modelled)
 VFile == /\ vpc = "files" /\ vi <= Len(FileOrder)
          /\ LET p == FileOrder[vi] IN
-            (IF Resolve(fs, p) # "ok" \/ fs[p] # <<"file", TRUE>> THEN Send(<<"FILE", p>>) ELSE UNCHANGED wounds)
-         /\ vi' = vi + 1 /\ UNCHANGED <<fs,vpc,closed,hq,hqClosed,hdone,hpc,queued,ret>>
+            (IF UnderBroken(p) \/ Resolve(fs, p) \in {"enoent", "enotdir"} \/ (Resolve(fs, p) = "ok" /\ fs[p] # <<"file", TRUE>>)
+             THEN Send(<<"FILE", p>>) ELSE UNCHANGED wounds)                 \* (seen through a link: the healthy copy)
+         /\ vi' = vi + 1 /\ UNCHANGED <<fs,vpc,closed,hq,hqClosed,hdone,hpc,queued,ret,broken>>
 VFilesDone == /\ vpc = "files" /\ vi > Len(FileOrder) /\ closed' = TRUE /\ vpc' = "wait"
-              /\ UNCHANGED <<fs,vi,wounds,hq,hqClosed,hdone,hpc,queued,ret>>
+              /\ UNCHANGED <<fs,vi,wounds,hq,hqClosed,hdone,hpc,queued,ret,broken>>
 VReturn == /\ vpc = "wait" /\ hpc \in {"done", "failed"}
            /\ ret' = (IF hpc = "failed" THEN "err" ELSE "nil") /\ vpc' = "ret"
-           /\ UNCHANGED <<fs,vi,wounds,closed,hq,hqClosed,hdone,hpc,queued>>
+           /\ UNCHANGED <<fs,vi,wounds,closed,hq,hqClosed,hdone,hpc,queued,broken>>
 (* ---- healer: processWound in channel order ---- *)
 HWound == /\ hpc = "loop" /\ wounds # <<>>
           /\ LET w == Head(wounds) p == w[2] IN
              /\ wounds' = Tail(wounds)
              /\ CASE w[1] = "DIR" ->
                        LET g1 == IF Resolve(fs, p) = "ok" /\ fs[p][1] # "dir" THEN Wipe(fs, p) ELSE fs IN   \* os.Remove(non-dir)
-                       IF Resolve(fs, p) = "ok" /\ fs[p][1] = "dir" THEN UNCHANGED <<fs,hpc,hq,queued>>
+                       IF (Resolve(fs, p) = "ok" /\ fs[p][1] = "dir") \/ Through(fs, p) THEN UNCHANGED <<fs,hpc,hq,queued>>
                        ELSE IF MkdirAllOK(g1, p) THEN fs' = MkdirAll(g1, p) /\ UNCHANGED <<hpc,hq,queued>>
                        ELSE fs' = g1 /\ hpc' = "failed" /\ UNCHANGED <<hq,queued>>
                   [] w[1] = "SYM" ->
-                       IF Parent[p] # Root /\ ~MkdirAllOK(fs, Parent[p]) THEN hpc' = "failed" /\ UNCHANGED <<fs,hq,queued>>
+                       IF Through(fs, p) THEN UNCHANGED <<fs,hpc,hq,queued>>                                     \* re-created inside the other directory
+                       ELSE IF Parent[p] # Root /\ ~MkdirAllOK(fs, Parent[p]) THEN hpc' = "failed" /\ UNCHANGED <<fs,hq,queued>>
                        ELSE LET g1 == IF Parent[p] = Root THEN fs ELSE MkdirAll(fs, Parent[p])
                                 g2 == Wipe(g1, p)                                                            \* RemoveAll(dir) / Remove(other)
                             IN fs' = [g2 EXCEPT ![p] = <<"sym", TRUE>>] /\ UNCHANGED <<hpc,hq,queued>>
                   [] w[1] = "FILE" ->
                        IF p \in queued THEN UNCHANGED <<fs,hpc,hq,queued>>
                        ELSE hq' = Append(hq, p) /\ queued' = queued \cup {p} /\ UNCHANGED <<fs,hpc>>
-          /\ UNCHANGED <<vpc,vi,closed,hqClosed,hdone,ret>>
+          /\ UNCHANGED <<vpc,vi,closed,hqClosed,hdone,ret,broken>>
 HWoundsClosed == /\ hpc = "loop" /\ wounds = <<>> /\ closed /\ hqClosed' = TRUE /\ hpc' = "join"
-                 /\ UNCHANGED <<fs,vpc,vi,wounds,closed,hq,hdone,queued,ret>>
+                 /\ UNCHANGED <<fs,vpc,vi,wounds,closed,hq,hdone,queued,ret,broken>>
 HJoin == /\ hpc = "join" /\ hdone /\ hpc' = "done"
-         /\ UNCHANGED <<fs,vpc,vi,wounds,closed,hq,hqClosed,hdone,queued,ret>>
+         /\ UNCHANGED <<fs,vpc,vi,wounds,closed,hq,hqClosed,hdone,queued,ret,broken>>
 (* ---- heal goroutine: healOne = fspool.GetWriter (MkdirAll parent, replace dir/symlink, create+truncate) + copy ---- *)
 HealOne == /\ ~hdone /\ hq # <<>> /\ hpc # "failed"
            /\ LET p == Head(hq) IN
               /\ hq' = Tail(hq)
-              /\ IF Parent[p] # Root /\ ~MkdirAllOK(fs, Parent[p]) THEN hpc' = "failed" /\ UNCHANGED fs
+              /\ IF Through(fs, p) THEN UNCHANGED <<fs, hpc>>                                                   \* written into the other directory
+                 ELSE IF Parent[p] # Root /\ ~MkdirAllOK(fs, Parent[p]) THEN hpc' = "failed" /\ UNCHANGED fs
                  ELSE LET g1 == IF Parent[p] = Root THEN fs ELSE MkdirAll(fs, Parent[p]) IN
                       fs' = [Wipe(g1, p) EXCEPT ![p] = <<"file", TRUE>>] /\ UNCHANGED hpc
-           /\ UNCHANGED <<vpc,vi,wounds,closed,hqClosed,hdone,queued,ret>>
+           /\ UNCHANGED <<vpc,vi,wounds,closed,hqClosed,hdone,queued,ret,broken>>
 HealExit == /\ ~hdone /\ hq = <<>> /\ hqClosed /\ hdone' = TRUE
-            /\ UNCHANGED <<fs,vpc,vi,wounds,closed,hq,hqClosed,hpc,queued,ret>>
+            /\ UNCHANGED <<fs,vpc,vi,wounds,closed,hq,hqClosed,hpc,queued,ret,broken>>
 Next == VDir \/ VDirsDone \/ VSym \/ VSymsDone \/ VFile \/ VFilesDone \/ VReturn
         \/ HWound \/ HWoundsClosed \/ HJoin \/ HealOne \/ HealExit
 Terminating == vpc = "ret" /\ UNCHANGED vars
@@ -101,4 +119,6 @@ Signed == [p \in Paths |-> <<Expect[p], TRUE>>]
 HealsEverything == vpc = "ret" => (ret = "nil" /\ fs = Signed)
 \* the same property for damage that does not put a non-directory where a directory is expected
 NoDirSwap(g) == \A p \in Paths : Expect[p] = "dir" => g[p][1] \in {"dir", "none"}
+\* (how many disks: reported by the check)
+NoSymDir(g) == \A p \in Paths : g[p][1] # "symdir"
 =============================================================================
